@@ -1306,4 +1306,57 @@ example :
   · revert h; decide
   · exact ⟨by decide +kernel, by decide +kernel, by decide +kernel⟩
 
+
+/-! ## round h6: the memo fields tied to the constructor -/
+
+/-- **The wrapper reports f's argument specification — memo fields and constructor in ONE model.**  Start from a plain function
+and apply any sequence of decorator applications (`mk`: unwrapping / cutting out same-class wrappers, whose memo fields vanish
+with them: `keepOf`) and specification requests at any depth (which fill the memo fields they pass): the specification
+reported at the end is the plain function's, every wrapper object of the resulting chain has exactly one memo field, and the
+chain is the one `mkMany` builds from the decorator applications alone (requests never change it).  This ties the memo model
+of `spec_forwarded_memo` (arbitrary `construct keep`) to the constructor `mk`. -/
+theorem spec_forwarded_through_mk (base : Sig) (b : Nat) (ops : List WOp) :
+    let f := ops.foldl (fun f op => op.run base f) { fn := { chain := [], base := b }, memos := [] }
+    specWalk base f.memos = base ∧ f.memos.length = f.fn.chain.length ∧
+    f.fn = mkMany (ops.filterMap WOp.wrapOf) { chain := [], base := b } := by
+  intro f
+  refine ⟨?_, ?_, foldl_fn base ops _⟩
+  all_goals
+    have inv : ∀ (ops : List WOp) (g : WFnM), MemoOk base g.memos → g.memos.length = g.fn.chain.length →
+        (classes g.fn.chain).Nodup →
+        MemoOk base (ops.foldl (fun f op => op.run base f) g).memos ∧
+        (ops.foldl (fun f op => op.run base f) g).memos.length = (ops.foldl (fun f op => op.run base f) g).fn.chain.length := by
+      intro ops
+      induction ops with
+      | nil => intro g h1 h2 _; exact ⟨h1, h2⟩
+      | cons op ops ih =>
+        intro g h1 h2 h3
+        simp only [List.foldl_cons]
+        cases op with
+        | wrap cls kw =>
+          apply ih
+          · exact mkMemos_ok base _ _ h1
+          · simp only [WOp.run, mkMemos, List.length_cons, List.length_map, mk_chain cls kw g.fn h3, keepOf, stripAll]
+            rw [kept_length (fun w => w.1 != cls) g.fn.chain g.memos h2]
+          · exact mk_nodup cls kw g.fn h3
+        | request d =>
+          apply ih
+          · exact fill_below_ok base _ _ (by rw [List.take_append_drop]; exact h1)
+          · simp only [WOp.run, List.length_append, fillMemos_length, List.length_take, List.length_drop]
+            omega
+          · exact h3
+    have := inv ops { fn := { chain := [], base := b }, memos := [] } (by intro s hs; simp at hs) rfl (by simp [classes])
+  · exact specWalk_of_ok base _ this.1
+  · exact this.2
+
+/-- non-vacuity: `cache`, `try_value` on top, request the inner object's specification, re-wrap with `cache` (the inner cache
+object and its filled memo are cut out), request the top -/
+example :
+    let base : Sig := { params := ["a"], defaults := [], varargs := none, varkw := none }
+    let ops := [WOp.wrap .cache [], .wrap .tryValue [], .request 1, .wrap .cache [], .request 0]
+    let f := ops.foldl (fun f op => op.run base f) { fn := { chain := [], base := 0 }, memos := [] }
+    classes f.fn.chain = [.cache, .tryValue] ∧ f.memos.length = 2 ∧ specWalk base f.memos = base := by
+  intro base ops f
+  exact ⟨by decide +kernel, (spec_forwarded_through_mk base 0 ops).2.1.trans (by decide +kernel), (spec_forwarded_through_mk base 0 ops).1⟩
+
 end Pyg.Props.C18
